@@ -1,5 +1,8 @@
 // C07 harness: internals of the Pade matrix exponential are reached by including the library source
 #include <SQuIDS/SUNalg.h>
+#include <gsl/gsl_matrix.h>
+// keep the exact norm a call (not inlined into matrix_exponential) so that the check can stub every norm estimate alike
+namespace squids{ namespace math_detail{ double exact_1_norm(const gsl_matrix_complex*) __attribute__((noinline)); } }
 #include "MatrixExp.cpp"
 using namespace squids;
 using namespace squids::math_detail;
